@@ -42,6 +42,9 @@ def texture_soils():
         if sand + clay > 100:
             continue
         out[f"t{sand}_{clay}_{om}"] = {"type": "custom", "texture": [[0.5, sand, clay, om, 100], [3.5, max(5, sand - 5), clay, om, 80]]}
+    # compacted / loosened layers: the public pedotransfer method with a density factor 0.9 .. 1.25
+    for df in (0.9, 1.1, 1.25):
+        out[f"t40_20_2.5_df{df}"] = {"type": "custom", "texture": [[0.5, 40, 20, 2.5, 100, df], [3.5, 30, 25, 1.5, 100, df]]}
     # the almost-pure-silt corner (sand + clay of a percent or less) and whole-number neighbours
     for sand, clay in ((0.6, 0.4), (0, 1), (0.5, 0.5), (1, 0), (1, 1), (2, 1)):
         out[f"t{sand}_{clay}_2_silt"] = {"type": "custom", "texture": [[0.5, sand, clay, 2.0, 100], [3.5, sand, clay, 1.0, 100]]}
@@ -98,7 +101,7 @@ def all_soils(tier, lattice=True):
     soils.update(CUSTOM)
     tx = texture_soils()
     if tier == "quick":
-        tx = dict([kv for i, kv in enumerate(tx.items()) if i % 4 == 0 or kv[0].endswith("_silt")])
+        tx = dict([kv for i, kv in enumerate(tx.items()) if i % 4 == 0 or kv[0].endswith("_silt") or "_df" in kv[0]])
     soils.update(tx)
     return soils
 
@@ -177,7 +180,14 @@ def run(scn):
     if scn.get("gw") is not None:
         spec["gw"] = {"method": "Constant", "dates": [spec["start"]], "values": [float(scn["gw"])]}
     # reference: the user's soil before any model touched it
-    ref_soil = S.make_soil(ss)
+    try:
+        ref_soil = S.make_soil(ss)
+    except Exception as e:  # noqa: BLE001 - building a valid soil raised: a finding about the code, not a harness error
+        d = describe_exception(e)
+        res["evals"] = 1
+        res["aborted"] = d
+        bad("initialisation-raises", {"exc": d["exc_type"], "origin": d["exc_origin"], "msg": d["exc_msg"][:160], "phase": "building the Soil object"}, "a valid soil can be built", exc_type=d["exc_type"], exc_origin=d["exc_origin"])
+        return res
     ref_df = ref_soil.profile.ffill()
     user_dz = np.array(ref_df.dz.values, dtype=float)
     orig_dz = user_dz.copy()
@@ -240,7 +250,7 @@ def run(scn):
         for li, row in enumerate(ss["texture"]):
             if (li + 1) not in props:
                 continue
-            rwp, rfc, rs, rks = saxton_rawls(float(row[1]), float(row[2]), float(row[3]))
+            rwp, rfc, rs, rks = saxton_rawls(float(row[1]), float(row[2]), float(row[3]), float(row[5]) if len(row) > 5 else 1.0)
             got = props[li + 1]
             for k, rv, tol in (("th_wp", rwp, 6e-4), ("th_fc", rfc, 6e-4), ("th_s", rs, 6e-4), ("Ksat", rks, 0.06 + 1e-3 * abs(rks))):
                 if not abs(float(got[k]) - rv) <= tol:
